@@ -870,7 +870,7 @@ func (w *World) setRelationArch(oldArch *archetype, oldArchLen uint32, comp ID, 
 }
 
 func (w *World) checkRelation(arch *archetype, comp ID) {
-	if arch.node.Relation.id != comp.id {
+	if !arch.node.HasRelation || arch.node.Relation.id != comp.id {
 		w.relationError(arch, comp)
 	}
 }
